@@ -10,6 +10,11 @@ line answers one observation:
 * `q volley <filter> <tgt|->` | `q dps <filter> <reload> <tgt|->` | `q rps <armor|shield> <profile|none> <reload>`
 * `q cyc <cycles|none|inf> <dur|-> <inact|-> <reloadtime|-> <reload>` (no snapshot needed)
 
+White-box view of the registers: `hist` clears the recorded message stream, each
+`msg <on> <item> <cls> P <points> A <type attrs> T <truthy type attrs> K <effect=kind ...>` appends one message
+as the fit published it, and `q reg <RegisterClass> [effect]` answers `reg <alternates 0/1> <member ids, sorted>`
+computed by the toggle-register model (`RegSpec.run`).
+
 Values are `n/d`; a rounded value whose argument sits on a rounding boundary is printed `v~w` (both accepted);
 errors are `E:<Name>[|<Name>...]` (every error some member of an aggregate raises). -/
 open Eos Eos.Stats Eos.Cycle
@@ -171,7 +176,58 @@ def answer (s : Snap) : List String → String
     | _, _, _, _, _ => "bad-op"
   | _ => "bad-op"
 
-def stepStats (s : Snap) (line : String) : Snap × List String :=
+def parsePoint? (s : String) : Option Point :=
+  match s.splitOn ":" with
+  | ["loaded"] => some .loaded
+  | ["state", n] => n.toNat?.map .state
+  | ["stateLoaded", n] => n.toNat?.map .stateLoaded
+  | ["effect", e] => some (.effect e)
+  | _ => none
+
+/-- Split `P a b A c T d K e` into its four sections. -/
+def sections (l : List String) : List String × List String × List String × List String :=
+  let rec go (cur : String) (acc : List String × List String × List String × List String) : List String → _
+    | [] => acc
+    | x :: t =>
+      if x == "P" || x == "A" || x == "T" || x == "K" then go x acc t
+      else go cur (match cur with
+        | "P" => (acc.1 ++ [x], acc.2)
+        | "A" => (acc.1, acc.2.1 ++ [x], acc.2.2)
+        | "T" => (acc.1, acc.2.1, acc.2.2.1 ++ [x], acc.2.2.2)
+        | _ => (acc.1, acc.2.1, acc.2.2.1, acc.2.2.2 ++ [x])) t
+  go "P" ([], [], [], []) l
+
+def parseMsg? (on id cls : String) (rest : List String) : Option Msg := do
+  let (ps, as, ts, ks) := sections rest
+  let pts ← ps.mapM parsePoint?
+  let kinds ← ks.mapM fun kv => match kv.splitOn "=" with
+    | [e, k] => (parseKind? k).map (e, ·)
+    | _ => none
+  pure ⟨← parseBool? on, ← id.toNat?, { cls := ← parseCls? cls, typeAttrs := as, truthy := ts, effKinds := kinds }, pts⟩
+
+def regByName (name : String) (e : String) : Option RegSpec :=
+  if name == "DmgDealerRegister" then some (regDmgDealer e)
+  else if name == "ArmorRepairerRegister" then some (regArmorRep e)
+  else if name == "ShieldRepairerRegister" then some (regShieldRep e)
+  else allRegs.find? (·.name == name)
+
+def insertSorted (x : Nat) : List Nat → List Nat
+  | [] => [x]
+  | y :: t => if x ≤ y then x :: y :: t else y :: insertSorted x t
+
+def answerReg (hist : List Msg) (name e : String) : String :=
+  match regByName name e with
+  | none => "bad-op"
+  | some r =>
+    let ids := (r.run hist).foldl (fun acc x => insertSorted x.1 acc) []
+    let alt := if alternatesB r.point (fun _ => none) hist then "1" else "0"
+    " ".intercalate (["reg", alt] ++ ids.map toString)
+
+structure St where
+  snap : Snap := {}
+  hist : List Msg := []      -- newest first
+
+def stepSnap (s : Snap) (line : String) : Snap × List String :=
   let bad := (s, ["bad-op"])
   match line.splitOn " " with
   | ["snap"] => ({}, [])
@@ -212,4 +268,15 @@ def stepStats (s : Snap) (line : String) : Snap × List String :=
   | "q" :: rest => (s, [answer s rest])
   | _ => bad
 
-def main : IO Unit := do lineLoop (← IO.getStdin) ({} : Snap) stepStats
+def stepStats (st : St) (line : String) : St × List String :=
+  match line.splitOn " " with
+  | ["hist"] => ({ st with hist := [] }, [])
+  | "msg" :: on :: id :: cls :: rest =>
+    match parseMsg? on id cls rest with
+    | some m => ({ st with hist := m :: st.hist }, [])
+    | none => (st, ["bad-op"])
+  | ["q", "reg", name] => (st, [answerReg st.hist.reverse name ""])
+  | ["q", "reg", name, e] => (st, [answerReg st.hist.reverse name e])
+  | _ => let (s, out) := stepSnap st.snap line; ({ st with snap := s }, out)
+
+def main : IO Unit := do lineLoop (← IO.getStdin) ({} : St) stepStats
